@@ -1,4 +1,5 @@
 mod expmodels;
+mod c08;
 mod export;
 mod fittrace;
 mod lattice;
@@ -37,6 +38,20 @@ fn main() {
             let out = args.get(3).expect("output file");
             let count: usize = args.get(4).map(|s| s.parse().expect("count")).unwrap_or(100);
             fittrace::run(mode, out, count)
+        }
+        "c08child" => {
+            let path = args.get(2).expect("scenario file");
+            let from: usize = args.get(3).expect("from").parse().unwrap();
+            let to: usize = args.get(4).expect("to").parse().unwrap();
+            c08::child(path, from, to);
+            return;
+        }
+        "c08" => {
+            let path = args.get(2).expect("export file");
+            let stride: usize = args.get(3).map(|s| s.parse().unwrap()).unwrap_or(8);
+            let fits: usize = args.get(4).map(|s| s.parse().unwrap()).unwrap_or(300);
+            let timeout: u64 = args.get(5).map(|s| s.parse().unwrap()).unwrap_or(20);
+            c08::run(path, stride, fits, timeout)
         }
         "stationary" => stationary::run(args.get(2).expect("export file")),
         "model" => vmodel::run(args.get(2).expect("export file")),
